@@ -6,13 +6,13 @@ import GomlVerif.Driver.SemRun
 namespace Goml.Driver.SrcRun
 open Goml Goml.Driver
 
-def runLine (fuel : Nat) (l : String) : String :=
+def runLine (fuel : Nat) (l : String) (litDecl : Bool := false) : String :=
   let (id, rest) := splitTab l
   match Sexp.parse rest with
   | some sx =>
     match DecSrc.decProg sx with
     | some P =>
-      let o := Src.run fuel P
+      let o := Src.run fuel P "main" true litDecl
       s!"{id}\t{o.status}\t{SemRun.escOut o.out}\t{" ".intercalate o.externs}"
     | none => s!"{id}\tdecode-error\t\t"
   | none => s!"{id}\tparse-error\t\t"
@@ -20,6 +20,8 @@ def runLine (fuel : Nat) (l : String) : String :=
 def main : IO Unit := do
   let stdin ← IO.getStdin
   let fuel := (← IO.getEnv "GV_FUEL").bind String.toNat? |>.getD 20000000
-  forEachLine stdin fun l => IO.println (runLine fuel l)
+  -- GV_SRC_LITORDER=decl: the `litDeclOrder` semantics parameter (attribution runs only)
+  let litDecl := (← IO.getEnv "GV_SRC_LITORDER") == some "decl"
+  forEachLine stdin fun l => IO.println (runLine fuel l litDecl)
 
 end Goml.Driver.SrcRun
